@@ -9,7 +9,7 @@ from pyvc.logic import Ref, NONE, TRUE, FALSE, truthy, card, isa, fresh, V
 from .spec import *
 from .c_job import S_FINISHED, S_PENDING, S_CANCELLED, tstate, finished, state_consts_facts, task_of, done_pred
 from .env_asyncio import vt, CLK
-from .c_run import (sched_rely, SCHED_RELY_FIELDS, all_tasks, none_pending, init_vt, _cl)
+from .c_run import (sched_rely, SCHED_RELY_FIELDS, RUN_MODIFIES, all_tasks, none_pending, init_vt, _cl, mine_task)
 from .c_graph import BL, listset
 
 F = 'purescheduler.py'
@@ -20,32 +20,49 @@ def Jset(c):
     return J(c.pre, c.a.self)
 
 
+_GSETS = {}
+
+
+def gset(c, key, pred, prefix, triggers=None):
+    """definitional set shared by every context that asks for the same key (so that an invariant assumed
+    at a loop head and a lemma stated later talk about the same set constant)"""
+    if key not in _GSETS:
+        axs = []
+        A = L.setdef(axs, pred, prefix, triggers)
+        _GSETS[key] = (A, axs)
+    A, axs = _GSETS[key]
+    c.fact(axs)
+    return A
+
+
 def created(c, st):
     """tasks this activation created: allocated since entry, running `wrapped` of a member"""
-    key = ('created', st.H('$alive').get_id(), st.H('$wjob').get_id())
     Jp = Jset(c)
-    return c.memo(key, lambda: c.setdef(
-        lambda t: And(isa['Task'](t), Not(c.pre.alive(t)), st.alive(t), Select(Jp, st.f('$wjob', t))), 'created'))
+    key = ('created', c.pre.H('$alive').get_id(), st.H('$alive').get_id(), st.H('$wjob').get_id(), Jp.get_id())
+    return gset(c, key, lambda t: And(isa['Task'](t), Not(c.pre.alive(t)), st.alive(t), Select(Jp, st.f('$wjob', t))),
+                'created')
 
 
 def unstarted(c, st):
     """U := members without a task (the candidate set at which acyclicity is used)"""
-    key = ('unstarted', st.H('_task').get_id())
     Jp = Jset(c)
-    return c.memo(key, lambda: c.setdef(lambda j: And(Select(Jp, j), st.f('_task', j) == NONE), 'unstarted'))
+    key = ('unstarted', st.H('_task').get_id(), Jp.get_id())
+    return gset(c, key, lambda j: And(Select(Jp, j), st.f('_task', j) == NONE), 'unstarted',
+                triggers=lambda j: [st.f('_task', j)])
 
 
 def finite_members(c):
     Jp = Jset(c)
-    return c.memo('finite', lambda: c.setdef(lambda j: And(Select(Jp, j), Not(c.pre.f('forever', j))), 'finite'))
+    key = ('finite', Jp.get_id(), c.pre.H('forever').get_id())
+    return gset(c, key, lambda j: And(Select(Jp, j), Not(c.pre.f('forever', j))), 'finite')
 
 
 def delivered_finite(c, st, Pset):
     """tasks delivered by asyncio.wait (created, no longer in the wait set) whose job is not forever"""
     CR = created(c, st)
-    key = ('delfin', CR.get_id(), Pset.get_id())
-    return c.memo(key, lambda: c.setdef(
-        lambda t: And(Select(CR, t), Not(Select(Pset, t)), Not(c.pre.f('forever', st.f('_job', t)))), 'delfin'))
+    key = ('delfin', CR.get_id(), Pset.get_id(), st.H('_job').get_id())
+    return gset(c, key, lambda t: And(Select(CR, t), Not(Select(Pset, t)), Not(c.pre.f('forever', st.f('_job', t)))),
+                'delfin')
 
 
 def frame_graph(c, st):
@@ -158,7 +175,7 @@ c.requires('no-stale-task-refers-to-a-member', lambda c: (lambda t: ForAll([t], 
     c.pre.alive(t), And(Not(member(c.pre, c.a.self, c.pre.f('$wjob', t))),
                         Not(member(c.pre, c.a.self, c.pre.f('$sd_of', t))))),
     patterns=[c.pre.f('$wjob', t)]))(q()))
-c.modifies(*(SCHED_RELY_FIELDS + ['jobs_window']))
+c.modifies(*RUN_MODIFIES)
 # guarantee (R3/R4 of the other activations): this coroutine stores only its own flags
 c.store_guard = lambda c, field, obj, val: obj == c.a.self \
     if field in ('_failed_critical', '_failed_timeout') else z3.BoolVal(False)
@@ -211,7 +228,21 @@ def _l0(c):
 _L0 = ['I0-graph-unchanged', 'I0-backlinks', 'I0-own-fields', 'I0-window', 'clock-still', 'counts',
        'one-task-per-visited-entry-job', 'tasks-distinct', 'created-are-exactly-the-list', 'I2-one-task-per-job',
        'only-entry-jobs-have-a-task', 'no-cancellation', 'fresh-tasks-pending', 'entry-list-stable']
-c.loop(0, inv=_cl(_l0, _L0, 'l0'))
+def _l0_list_hints(h, e):
+    """the list `pending` grew by exactly the task just created (instance of the list-set axiom at the
+    new last index, which the simplifier would otherwise rewrite away)"""
+    hs, st = h.cur, e.cur
+    pend = st.env['pending'].t
+    n = hs.llen(hs.env['pending'].t)
+    PLe, PLh = _pending_listset(e), listset(e, hs, hs.env['pending'].t)
+    tn = st.lat(pend, n)
+    t = q()
+    return [Implies(And(0 <= n, n < st.llen(pend)), Select(PLe, tn)),
+            L.Lemma('list-grew-by-the-new-task', ForAll([t], Select(PLe, t) == Or(Select(PLh, t), t == tn),
+                                                        patterns=[Select(PLe, t)]))]
+
+
+c.loop(0, inv=_cl(_l0, _L0, 'l0'), clause_hints={'created-are-exactly-the-list': _l0_list_hints})
 
 
 # ---------------------------------------------------------------- loop 1: the main loop
@@ -233,7 +264,9 @@ def _main(c):
         ('I0-backlinks', BL(st, S, Jp)),
         ('I0-own-fields', own_fields(c, st)),
         ('I0-window', window_ok(c, st)),
-        ('I1-wait-set-within-created', And(L.subset(P, CR), all_tasks(st, P))),
+        ('I1-wait-set-within-created', And(L.subset(P, CR), all_tasks(st, P),
+                                           st.f('$setrole', st.env['pending'].t) == 0,
+                                           st.alive(st.env['pending'].t), isa['set'](st.env['pending'].t))),
         ('I1-wait-set-not-empty', Exists([x], Select(P, x))),
         ('I1-delivered-finished-and-not-critical-failures', delivered_ok(c, st, P)),
         ('I1-no-cancellation-so-far', no_cancel(c, st)),
@@ -245,21 +278,86 @@ def _main(c):
 
 
 _MAIN = ['I0-graph-unchanged', 'I0-backlinks', 'I0-own-fields', 'I0-window', 'I1-wait-set-within-created',
-         'I1-wait-set-not-empty', 'I1-delivered-finished-and-not-critical-failures', 'I1-no-cancellation-so-far',
-         'I2-one-task-per-job', 'I3-requirements-finished-before-a-task-exists', 'I4-eager', 'I5-counts']
+         'I1-delivered-finished-and-not-critical-failures', 'I1-no-cancellation-so-far',
+         'I2-one-task-per-job', 'I3-requirements-finished-before-a-task-exists', 'I4-eager', 'I5-counts',
+         'I1-wait-set-not-empty']
 
 
 def _main_hints(h, e):
-    """back edge: the wait set cannot be empty (acyclicity at the unstarted members + counting)"""
+    """back edge of the main loop.  Intermediate states: h head, w after asyncio.wait, l4 before the
+    candidate loop, e end of the iteration.  The lemmas split the step into set equalities the solvers
+    can chain; the last ones are the cardinality / acyclicity instances (K5, K8, `acyclic` at the
+    members without a task)."""
     st = e.cur
-    P = _P(e)
+    hs = h.cur
+    g = st.g
+    w = g.get('$wait')
+    l4 = g.get('$loop4_pre')
+    if w is None or l4 is None:
+        return []
+    ws = w['post']
+    D, Pw = ws.elems(w['done']), ws.elems(w['pend'])
+    Ph, Pe = _P(h), _P(e)
+    CRh, CRe, CR4 = created(e, hs), created(e, st), created(e, l4)
+    t, j, r = q(3)
+    out = []
+    out.append(L.Lemma('no-task-of-mine-appears-before-the-candidate-loop',
+                       ForAll([t], Select(CR4, t) == Select(CRh, t), patterns=[Select(CR4, t), Select(CRh, t)])))
+    out.append(L.Lemma('wait-set-before-the-candidate-loop-is-what-wait-left',
+                       ForAll([t], l4.mem(l4.env['pending'].t, t) == Select(Pw, t),
+                              patterns=[l4.mem(l4.env['pending'].t, t)])))
+    out.append(L.Lemma('wait-set-is-what-wait-left-plus-the-new-tasks',
+                       ForAll([t], Select(Pe, t) == Or(Select(Pw, t), And(Select(CRe, t), Not(Select(CRh, t)))),
+                              patterns=[Select(Pe, t)])))
+    out.append(L.Lemma('delivered-is-previously-delivered-plus-this-batch',
+                       ForAll([t], And(Select(CRe, t), Not(Select(Pe, t))) ==
+                              Or(And(Select(CRh, t), Not(Select(Ph, t))), Select(D, t)),
+                              patterns=[Select(CRe, t)])))
+    # counting: the finite delivered tasks grow by exactly the batch's non-forever ones (K5)
+    if 'done_jobs_not_forever' in st.env:
+        Dnf = st.elems(st.env['done_jobs_not_forever'].t)
+        A0, A1 = delivered_finite(e, hs, Ph), delivered_finite(e, st, Pe)
+        out.append(L.Lemma('finite-delivered-is-a-disjoint-union',
+                           And(ForAll([t], Select(A1, t) == Or(Select(A0, t), Select(Dnf, t)), patterns=[Select(A1, t)]),
+                               ForAll([t], Not(And(Select(A0, t), Select(Dnf, t))), patterns=[Select(Dnf, t)]))))
+        out.append(L.K5(A0, Dnf, A1))
+        out += L.card_facts(A0) + L.card_facts(A1) + L.card_facts(Dnf)
+    return out
+
+
+def _nonempty_hints(h, e):
+    """the wait set cannot be empty at the back edge: if it were, every member without a task would be
+    held back by another member without a task (I4) - a self-supporting set, excluded by `acyclic` - so
+    every finite member has a delivered task, and the counts would be equal (K8)"""
+    st = e.cur
+    Pe = _P(e)
     U = unstarted(e, st)
     e.use_schema('acyclic', U)
-    A = delivered_finite(e, st, P)
+    A = delivered_finite(e, st, Pe)
     Bf = finite_members(e)
-    f = lambda t: st.f('_job', t)
-    g = lambda j: st.f('_task', j)
-    return [L.K8(A, Bf, f, g)] + L.card_facts(A) + L.card_facts(Bf)
+    f = lambda t_: st.f('_job', t_)
+    gg = lambda j_: st.f('_task', j_)
+    x, a, b, u, r = q(5)
+    empty = ForAll([x], Not(Select(Pe, x)), patterns=[Select(Pe, x)])
+    out = []
+    out.append(L.Lemma('delivered-finite-tasks-map-into-the-finite-members',
+                       ForAll([a], Implies(Select(A, a), And(Select(Bf, f(a)), gg(f(a)) == a)), patterns=[Select(A, a)])))
+    out.append(L.Lemma('with-an-empty-wait-set-started-finite-members-are-delivered',
+                       Implies(empty, ForAll([b], Implies(And(Select(Bf, b), gg(b) != NONE),
+                                                          And(Select(A, gg(b)), f(gg(b)) == b)), patterns=[gg(b)]))))
+    out.append(L.Lemma('with-an-empty-wait-set-the-unstarted-members-support-themselves',
+                       Implies(empty, ForAll([u], Implies(Select(U, u), Exists([r], And(Select(U, r), E(e.pre, u, r)))),
+                                             patterns=[Select(U, u)]))))
+    out.append(L.Lemma('with-an-empty-wait-set-no-member-is-unstarted',
+                       Implies(empty, ForAll([u], Not(Select(U, u)), patterns=[Select(U, u)]))))
+    out.append(L.Lemma('with-an-empty-wait-set-every-member-is-started',
+                       Implies(empty, ForAll([u], Implies(Select(Jset(e), u), gg(u) != NONE),
+                                             patterns=[gg(u), Select(Jset(e), u)]))))
+    out.append(L.Lemma('with-an-empty-wait-set-every-finite-member-is-delivered',
+                       Implies(empty, ForAll([b], Implies(Select(Bf, b), And(Select(A, gg(b)), f(gg(b)) == b)),
+                                             patterns=[gg(b)]))))
+    out += [L.K8(A, Bf, f, gg)] + L.card_facts(A) + L.card_facts(Bf)
+    return out
 
 
 def _main_est_hints(c):
@@ -272,12 +370,69 @@ def _main_est_hints(c):
 
 
 c.loop(1, inv=_cl(_main, _MAIN, 'main'), hints=_main_hints, var_kinds={'pending': 'set'},
-       est_hints=_main_est_hints, forget=True)
+       est_hints=_main_est_hints, forget=True, clause_hints={'I1-wait-set-not-empty': _nonempty_hints})
 
 
 def _corun_post_hints(c):
+    """exits of co_run.  w: state after the deciding asyncio.wait; x: after _tidy_tasks_exception;
+    ty: around _tidy_tasks; sd: around co_shutdown."""
     c.use_schema('acyclic', Jset(c))
-    return []
+    st = c.cur
+    g = st.g
+    w, ty, sd, tx = g.get('$wait'), g.get('$tidy'), g.get('$sd'), g.get('$tidyx')
+    out = []
+    if w is None:
+        return out
+    hs, ws = w['pre'], w['post']
+    D, Pw = ws.elems(w['done']), ws.elems(w['pend'])
+    CRh, CRe = created(c, hs), created(c, st)
+    t, j = q(2)
+    out.append(L.Lemma('no-task-of-mine-appears-after-the-deciding-wait',
+                       ForAll([t], Select(CRe, t) == Select(CRh, t), patterns=[Select(CRe, t), Select(CRh, t)])))
+    if ty is not None:
+        tp, tq = ty['pre'], ty['post']
+        out.append(L.Lemma('tidy-was-given-what-wait-left', ForAll([t], tp.mem(ty['pending'], t) == Select(Pw, t),
+                                                                   patterns=[tp.mem(ty['pending'], t)])))
+        out.append(L.Lemma('tidy-at-the-deciding-instant', vt(tp) == vt(ws)))
+        out.append(L.Lemma('nothing-created-is-pending-after-tidy', none_pending(tq, CRh)))
+        out.append(L.Lemma('cancel-requests-are-those-of-tidy', ForAll([t], Implies(
+            And(Select(CRh, t), tq.f('$cancel_req', t)),
+            And(Select(Pw, t), tq.f('$cancel_vt', t) == vt(ws))), patterns=[tq.f('$cancel_req', t)])))
+    S = c.a.self
+    T = c.pre.f('timeout', S)
+    x_ = q()
+    out.append(L.Lemma('an-empty-batch-means-the-timeout-elapsed', Implies(
+        Not(L.nonempty(D)), And(T != NONE, vt(ws) >= c.pre.g['$vt'] + L.numval(T)))))
+    out.append(L.Lemma('clock-does-not-go-back', vt(st) >= vt(ws)))
+    out.append(L.Lemma('own-flags-before-the-verdict-is-recorded', And(
+        Or(T == NONE, And(L.is_num(T), T != FALSE, T != NONE)),
+        hs.f('_failed_critical', S) == FALSE, hs.f('_failed_timeout', S) == FALSE)))
+    if sd is not None:
+        sp, sq = sd['pre'], sd['post']
+        out.append(L.Lemma('shutdown-leaves-the-run-tasks-alone', ForAll([t], Implies(
+            Select(CRh, t), And(sq.f('$cancel_req', t) == sp.f('$cancel_req', t),
+                                sq.f('$cancel_vt', t) == sp.f('$cancel_vt', t),
+                                Implies(tstate(sp, t) != S_PENDING, tstate(sq, t) == tstate(sp, t)))),
+            patterns=[sq.f('$cancel_req', t)])))
+    # success: all finite members are delivered (K5 for the count, K9 pigeonhole for the conclusion)
+    if tx is not None and 'done_jobs_not_forever' in st.env:
+        xs = tx['post']
+        Dnf = st.elems(st.env['done_jobs_not_forever'].t)
+        Ph = hs.elems(hs.env['pending'].t)
+        A0, A1 = delivered_finite(c, hs, Ph), delivered_finite(c, xs, Pw)
+        Bf = finite_members(c)
+        out.append(L.Lemma('finite-delivered-is-a-disjoint-union',
+                           And(ForAll([t], Select(A1, t) == Or(Select(A0, t), Select(Dnf, t)), patterns=[Select(A1, t)]),
+                               ForAll([t], Not(And(Select(A0, t), Select(Dnf, t))), patterns=[Select(Dnf, t)]))))
+        out.append(L.K5(A0, Dnf, A1))
+        out += L.card_facts(A0) + L.card_facts(A1) + L.card_facts(Dnf) + L.card_facts(Bf)
+        f = lambda t_: xs.f('_job', t_)
+        gg = lambda j_: xs.f('_task', j_)
+        out.append(L.K9(A1, Bf, f, gg))
+        out.append(L.Lemma('every-finite-member-is-delivered', ForAll([j], Implies(
+            Select(Bf, j), And(Select(A1, xs.f('_task', j)), xs.f('_job', xs.f('_task', j)) == j)),
+            patterns=[xs.f('_task', j)])))
+    return out
 
 
 c.post_hints = _corun_post_hints
@@ -338,7 +493,7 @@ def _l4(c):
             L.subset(P0, P), L.subset(P, CR), all_tasks(st, P),
             ForAll([t], Implies(And(Select(CR, t), Not(Select(CR0, t))), Select(P, t)), patterns=[Select(CR, t)]),
             ForAll([t], Implies(And(Select(P, t), Not(Select(P0, t))), Not(Select(CR0, t))), patterns=[Select(P, t)]),
-            L.subset(CR0, CR), pend == lp.env['pending'].t)),
+            L.subset(CR0, CR), pend == lp.env['pending'].t, st.f('$setrole', pend) == 0, st.alive(pend))),
         ('old-tasks-untouched', ForAll([t], Implies(lp.alive(t), And(
             tstate(st, t) == tstate(lp, t), st.f('_exception', t) == lp.f('_exception', t),
             st.f('_job', t) == lp.f('_job', t), st.f('$wjob', t) == lp.f('$wjob', t))),
@@ -358,7 +513,27 @@ _L4 = ['I0-graph-unchanged', 'I0-backlinks', 'I0-own-fields', 'I0-window', 'cloc
        'I3-requirements-finished-before-a-task-exists', 'I1-no-cancellation-so-far', 'wait-set-grows-by-the-new-tasks',
        'old-tasks-untouched', 'visited-candidates-settled', 'unvisited-members-untouched', 'candidates-are-members',
        'other-sets-untouched']
-c.loop(4, inv=_cl(_l4, _L4, 'l4'))
+def _l4_i2_hints(h, e):
+    """a task is created for the candidate only: the tasks that existed belong to other jobs"""
+    if h.elem is None:
+        return []
+    hs, st = h.cur, e.cur
+    cand = h.elem
+    t = q()
+    CRb = created(e, hs)
+    CRe = created(e, st)
+    tn = st.f('_task', cand)
+    return [L.Lemma('created-grows-by-at-most-the-task-of-the-candidate',
+                    ForAll([t], Implies(Select(CRe, t), Or(Select(CRb, t), And(t == tn, hs.f('_task', cand) == NONE))),
+                           patterns=[Select(CRe, t)])),
+            L.Lemma('tasks-that-existed-belong-to-other-jobs', Implies(
+        hs.f('_task', cand) == NONE,
+        ForAll([t], Implies(Select(CRb, t), And(hs.f('_job', t) != cand, st.f('_job', t) == hs.f('_job', t),
+                                                st.f('_task', hs.f('_job', t)) == t)),
+               patterns=[Select(CRb, t)])))]
+
+
+c.loop(4, inv=_cl(_l4, _L4, 'l4'), clause_hints={'I2-one-task-per-job': _l4_i2_hints})
 
 
 # ---------------------------------------------------------------- loop 5: are all requirements of the candidate done
